@@ -183,6 +183,26 @@ def _bound_roles(col, rule="C08.R2"):
             "the stop of a value range is used only as `self._data[step] <= stop`", str([u[2] for u in uses[stop]]))
     col.add(rule, "Table._get_row_indices#both-bounds-conjunction", both, sx.loc(sx.fn), "with both bounds given the two conditions are and-ed", "")
     col.add(rule, "Table._get_row_indices#open-range-selects-all", open_all, sx.loc(sx.fn), "a range with neither bound selects every row", "")
+    # inside the value-range branch the bounds reach the result through those comparisons only (no bisection / arithmetic on them:
+    # `lo <= col <= hi` is a statement about every row, whatever the order of the column)
+    region = S.fcall("isinstance", step, ("glob", "str"))
+
+    def strip(t):
+        if not isinstance(t, tuple):
+            return t
+        if t[:1] == ("cmp",) and len(t) == 4 and t[1] in ORDERING and ((t[2] == column and t[3] in (start, stop)) or (t[3] == column and t[2] in (start, stop))):
+            return ("const", "<cmp>")
+        return tuple(strip(x) for x in t)
+    other = []
+    for r in rets:
+        if region not in sx.conds(r.nid):
+            continue
+        rest = strip(r.value)
+        for b in (start, stop):
+            if any(x == b for x in S.subterms(rest)):
+                other.append(f"{S.show(b, False)} in {S.show(r.value)[:120]}")
+    col.add(rule, "Table._get_row_indices#bounds-only-compared-with-the-column", not other, sx.loc(sx.fn),
+            "in a value range the bounds are used for nothing but the element-wise comparisons with the column", "; ".join(other))
     # one-sided ranges use the bound that is present
     for r in rets:
         cs = sx.conds(r.nid)
